@@ -1,7 +1,52 @@
 (* C14  Dump output is well-formed and self-consistent.
    Statements only; every proof is `exact <lemma>`. *)
-From CV Require Import Base.Bytes Ctu.Defs Dump.Defs Dump.XmlProofs.
+From CV Require Import Base.Bytes Ctu.Defs Dump.Defs Dump.XmlProofs Dump.LinksProofs Dump.AstProofs Dump.ResolveProofs.
 Local Open Scope N_scope.
+
+(* Tokenizer::createLinks, for every token sequence: when it does not report an unmatched
+   token, every pair is an opening bracket before a closing bracket of the same kind, every
+   bracket token is linked, the links are a fixed-point-free involution, and any two pairs are
+   disjoint or nested (across the three kinds: the shared `type` stack enforces it) *)
+Theorem C14_links_symmetric_nested cs P :
+  create_links_chars cs = LOk P ->
+  let C := fun p => nth (N.to_nat p) cs 0 in
+  let n := N.of_nat (length cs) in
+  (forall o c, In (o, c) P -> o < c /\ c < n /\ exists k, C o = bk_open k /\ C c = bk_close k) /\
+  (forall p, p < n -> is_bracket_char (C p) = true -> exists q, link_of P p = Some q) /\
+  (forall p q, link_of P p = Some q -> In (p, q) P \/ In (q, p) P) /\
+  (forall p q, link_of P p = Some q -> link_of P q = Some p /\ p <> q) /\
+  pairs_ok P.
+Proof. exact (links_symmetric_nested cs P). Qed.
+Print Assumptions C14_links_symmetric_nested.
+
+Theorem C14_links_pairwise_nested_or_disjoint cs P :
+  create_links_chars cs = LOk P -> ForallOrdPairs nested_or_disjoint P.
+Proof. intros H. exact (pairs_ok_pairwise P (proj2 (proj2 (proj2 (proj2 (links_symmetric_nested cs P H)))))). Qed.
+Print Assumptions C14_links_pairwise_nested_or_disjoint.
+
+(* type.top() is never taken from an empty stack *)
+Theorem C14_create_links_never_stuck cs : create_links_chars cs <> LStuck.
+Proof. exact (create_links_never_stuck cs). Qed.
+Print Assumptions C14_create_links_never_stuck.
+
+(* Token::astOperand1/astOperand2 (and the astTop cache setter), for every sequence of calls
+   that completes without the cyclic-dependency exception, from tokens without AST pointers:
+   parent c = p exactly when c is operand 1 or 2 of p, the two operands of a token differ,
+   and no parent chain returns to its start (a forest) *)
+Theorem C14_ast_forest_inv fuel ops h n :
+  run_ops fuel h_empty ops 0 = (h, SOk, n) ->
+  (forall c p, h_par h c = Some p <-> (h_op1 h p = Some c \/ h_op2 h p = Some c) /\ True) /\
+  (forall p c, h_op1 h p = Some c -> h_op2 h p <> Some c) /\
+  (forall x k, up h (S k) x <> Some x).
+Proof. exact (ast_forest_inv fuel ops h n). Qed.
+Print Assumptions C14_ast_forest_inv.
+
+(* one call preserves the invariant from any consistent heap (so the theorem extends to any
+   interleaving with code that keeps AInv) *)
+Theorem C14_ast_set_op_preserves w fuel h x tok h' :
+  AInv h -> ast_set_op w fuel h x tok = (h', SOk) -> AInv h'.
+Proof. exact (set_op_inv w fuel h x tok h'). Qed.
+Print Assumptions C14_ast_set_op_preserves.
 
 (* every attribute value written through ErrorLogger::toxml consists of plain printable
    characters (none of lt gt amp quot apos) and complete references only *)
@@ -12,3 +57,52 @@ Print Assumptions C14_toxml_attr_safe.
 Theorem C14_toxml_bytes_ok : forall s, Forall out_byte_ok (toxml s).
 Proof. exact toxml_bytes_ok. Qed.
 Print Assumptions C14_toxml_bytes_ok.
+
+(* the reader's id resolution succeeds on every closed document and binds each attribute to an
+   element carrying that id; it raises only on a strict attribute that is not closed *)
+Theorem C14_resolve_total_on_closed d :
+  closed d ->
+  exists g, resolve d = Resolved g /\ map fst g = d_refs d /\
+            Forall (fun re => match snd re with
+                              | None => r_target (fst re) = 0
+                              | Some e => In e (d_elems d) /\ e_id e = r_target (fst re)
+                              end) g.
+Proof. exact (resolve_total_on_closed d). Qed.
+Print Assumptions C14_resolve_total_on_closed.
+
+Theorem C14_resolve_dangling_not_closed d r :
+  resolve d = Dangling r -> In r (d_refs d) /\ r_strict r = true /\ ~ closed_ref d r.
+Proof. exact (resolve_dangling_not_closed d r). Qed.
+Print Assumptions C14_resolve_dangling_not_closed.
+
+(* the validator run over real dumps: acceptance implies unique ids and that every id-valued
+   attribute is null or names the element of the required kind in the same configuration *)
+Theorem C14_check_doc_refs_sound d :
+  check_doc d = VOk ->
+  NoDup (map e_id (d_elems d)) /\
+  forall r, In r (d_refs d) ->
+    r_target r = 0 \/ exists e, In e (d_elems d) /\ e_id e = r_target r /\ e_kind e = r_kind r.
+Proof. exact (check_doc_refs_sound d). Qed.
+Print Assumptions C14_check_doc_refs_sound.
+
+(* non-vacuity *)
+Example C14_links_ok : create_links_chars [123; 40; 91; 93; 41; 125] = LOk [(0, 5); (1, 4); (2, 3)].
+Proof. vm_compute. reflexivity. Qed.
+Example C14_links_cross_kind : create_links_chars [40; 91; 41; 93] = LUnmatched 1.   (* ( [ ) ] *)
+Proof. vm_compute. reflexivity. Qed.
+Example C14_ast_ok :
+  exists h n, run_ops 5 h_empty [OSet1 1 (Some 0); OSet2 1 (Some 2); OSet1 3 (Some 0)] 0 = (h, SOk, n) /\
+              h_par h 1 = Some 3 /\ h_op1 h 3 = Some 1.
+Proof. eexists. eexists. split; [vm_compute; reflexivity|]. split; reflexivity. Qed.
+Example C14_ast_cyclic :
+  snd (fst (run_ops 5 h_empty [OSet1 1 (Some 0); OSet1 0 (Some 1)] 0)) = SCyclic.
+Proof. vm_compute. reflexivity. Qed.
+Example C14_closed_doc :
+  closed (mkD [mkE KToken 5 [40]; mkE KToken 6 [41]] [mkR 5 A_LINK 6 KToken true; mkR 6 A_LINK 5 KToken true]).
+Proof. intros r [<-|[<-|[]]]; right; cbn; eauto. Qed.
+Example C14_check_doc_accepts :
+  check_doc (mkD [mkE KToken 5 [40]; mkE KToken 6 [41]] [mkR 5 A_LINK 6 KToken true; mkR 6 A_LINK 5 KToken true]) = VOk.
+Proof. vm_compute. reflexivity. Qed.
+Example C14_check_doc_rejects :
+  check_doc (mkD [mkE KToken 5 [40]; mkE KToken 6 [41]] [mkR 5 A_LINK 6 KToken true; mkR 6 A_LINK 7 KToken true]) <> VOk.
+Proof. vm_compute. discriminate. Qed.
